@@ -54,7 +54,8 @@ type thread struct {
 	done   bool
 	ready  func() bool // nil = runnable
 	vc     vclock
-	what   string // description of pending op (diagnostics)
+	what   string        // description of pending op (diagnostics)
+	objs   []interface{} // sync objects the pending operation touches (nil = unknown: dependent with everything)
 }
 
 type shadowWord struct {
@@ -88,10 +89,12 @@ type scheduler struct {
 	raceOn   bool
 	races    map[string]bool
 	Deadlock bool
+	sleep    map[int]bool // sleep set (thread ids) at the current schedule point
+	Pruned   bool
 }
 
 func newSched(i *interpreter, maxPre int) *scheduler {
-	s := &scheduler{i: i, maxPre: maxPre, objs: map[*value]*syncObj{}, shadow: map[*value]*shadowWord{}, races: map[string]bool{}}
+	s := &scheduler{i: i, maxPre: maxPre, objs: map[*value]*syncObj{}, shadow: map[*value]*shadowWord{}, races: map[string]bool{}, sleep: map[int]bool{}}
 	t0 := &thread{id: 0, resume: make(chan struct{}, 1), vc: vclock{1}}
 	s.threads = []*thread{t0}
 	s.cur = t0
@@ -123,7 +126,7 @@ func (s *scheduler) tick() {
 }
 
 // yield: the current thread reaches a schedule point; it may continue once ready() holds.
-func (s *scheduler) yield(ready func() bool, what string) {
+func (s *scheduler) yield(ready func() bool, what string, objs ...interface{}) {
 	if s.nthreads == 1 {
 		if ready != nil && !ready() {
 			s.deadlock("main thread blocked forever on " + what)
@@ -133,8 +136,25 @@ func (s *scheduler) yield(ready func() bool, what string) {
 	me := s.cur
 	me.ready = ready
 	me.what = what
+	me.objs = objs
 	s.pick(me)
 	me.ready = nil
+}
+
+// independent reports whether the pending operations of two threads commute:
+// both are known and touch disjoint sets of synchronisation objects.
+func independent(a, b *thread) bool {
+	if len(a.objs) == 0 || len(b.objs) == 0 {
+		return false
+	}
+	for _, x := range a.objs {
+		for _, y := range b.objs {
+			if x == y {
+				return false
+			}
+		}
+	}
+	return true
 }
 
 func (s *scheduler) deadlock(msg string) {
@@ -203,15 +223,43 @@ func (s *scheduler) pick(me *thread) {
 		}
 		s.deadlock("no enabled thread")
 	}
-	n := len(en)
-	if en[0] == me && s.preempt >= s.maxPre {
-		n = 1
+	// sleep sets: a thread whose pending operation was already explored first at an
+	// ancestor point, and has not been disturbed by a dependent operation since, need
+	// not be scheduled here (every Mazurkiewicz trace keeps a representative).
+	var cand []*thread
+	bounded := s.maxPre < 1<<30 // sleep sets are not combined with preemption bounding (would lose schedules within the bound)
+	for _, t := range en {
+		if bounded || !s.sleep[t.id] {
+			cand = append(cand, t)
+		}
 	}
-	k := s.i.run.decideN("sched", n)
-	next := en[k]
+	if en[0] == me && s.preempt >= s.maxPre {
+		cand = []*thread{me}
+	}
+	if len(cand) == 0 {
+		s.Pruned = true
+		s.abortPath("")
+	}
+	k := s.i.run.decideN("sched", len(cand))
+	next := cand[k]
 	if en[0] == me && next != me {
 		s.preempt++
 	}
+	ns := map[int]bool{}
+	if bounded {
+		s.sleep = ns
+	}
+	for id := range s.sleep {
+		if z := s.threads[id]; !z.done && independent(z, next) {
+			ns[id] = true
+		}
+	}
+	for _, z := range cand[:k] {
+		if !bounded && independent(z, next) {
+			ns[z.id] = true
+		}
+	}
+	s.sleep = ns
 	s.history = append(s.history, next.id)
 	if next == me {
 		return
@@ -332,17 +380,18 @@ func (s *scheduler) killAll() {
 
 // join blocks the caller until all other threads are done.
 func (s *scheduler) join() {
+	me := s.cur
 	s.yield(func() bool {
 		for _, t := range s.threads {
-			if t != s.cur && !t.done {
+			if t != me && !t.done {
 				return false
 			}
 		}
 		return true
 	}, "join")
 	for _, t := range s.threads {
-		if t != s.cur {
-			s.cur.vc = s.cur.vc.join(t.vc)
+		if t != me {
+			me.vc = me.vc.join(t.vc)
 		}
 	}
 }
@@ -456,7 +505,7 @@ func (s *scheduler) chanSend(c *mchan, v value) {
 	if c.cap == 0 {
 		panic(inconclusive{"send on unbuffered channel"})
 	}
-	s.yield(func() bool { return chanSendReady(c) }, "chan send")
+	s.yield(func() bool { return chanSendReady(c) }, "chan send", c)
 	if c.closed {
 		panic(targetPanic{v: "send on closed channel"})
 	}
@@ -469,7 +518,7 @@ func (s *scheduler) chanRecv(c *mchan) (value, bool) {
 	if c == nil {
 		s.yield(func() bool { return false }, "receive on nil channel")
 	}
-	s.yield(func() bool { return chanRecvReady(c) }, "chan recv")
+	s.yield(func() bool { return chanRecvReady(c) }, "chan recv", c)
 	return s.chanTake(c)
 }
 
@@ -490,7 +539,7 @@ func (s *scheduler) chanClose(c *mchan) {
 	if c == nil {
 		panic(targetPanic{v: "close of nil channel"})
 	}
-	s.yield(nil, "chan close")
+	s.yield(nil, "chan close", c)
 	if c.closed {
 		panic(targetPanic{v: "close of closed channel"})
 	}
@@ -527,10 +576,16 @@ func doSelect(fr *frame, instr *ssa.Select) value {
 		}
 		return r
 	}
+	var sobjs []interface{}
+	for _, c := range cases {
+		if c.c != nil {
+			sobjs = append(sobjs, c.c)
+		}
+	}
 	if instr.Blocking {
-		s.yield(func() bool { return len(readyIdx()) > 0 }, "select")
+		s.yield(func() bool { return len(readyIdx()) > 0 }, "select", sobjs...)
 	} else {
-		s.yield(nil, "select")
+		s.yield(nil, "select", sobjs...)
 	}
 	rs := readyIdx()
 	chosen := -1
@@ -577,7 +632,7 @@ func init() {
 	ext("(*sync.Mutex).Lock", func(fr *frame, args []value) value {
 		s := fr.i.sch
 		o := s.obj(ptr(args))
-		s.yield(func() bool { return !o.locked }, "Mutex.Lock")
+		s.yield(func() bool { return !o.locked }, "Mutex.Lock", o)
 		o.locked = true
 		s.acquire(o)
 		return nil
@@ -585,7 +640,7 @@ func init() {
 	ext("(*sync.Mutex).TryLock", func(fr *frame, args []value) value {
 		s := fr.i.sch
 		o := s.obj(ptr(args))
-		s.yield(nil, "Mutex.TryLock")
+		s.yield(nil, "Mutex.TryLock", o)
 		if o.locked {
 			return false
 		}
@@ -596,7 +651,7 @@ func init() {
 	ext("(*sync.Mutex).Unlock", func(fr *frame, args []value) value {
 		s := fr.i.sch
 		o := s.obj(ptr(args))
-		s.yield(nil, "Mutex.Unlock")
+		s.yield(nil, "Mutex.Unlock", o)
 		if !o.locked {
 			fr.i.run.violation("fatal", "sync: unlock of unlocked mutex", nil)
 			s.abortPath("")
@@ -608,7 +663,7 @@ func init() {
 	ext("(*sync.RWMutex).Lock", func(fr *frame, args []value) value {
 		s := fr.i.sch
 		o := s.obj(ptr(args))
-		s.yield(func() bool { return !o.locked && o.readers == 0 }, "RWMutex.Lock")
+		s.yield(func() bool { return !o.locked && o.readers == 0 }, "RWMutex.Lock", o)
 		o.locked = true
 		s.acquire(o)
 		s.cur.vc = s.cur.vc.join(o.rvc)
@@ -617,7 +672,7 @@ func init() {
 	ext("(*sync.RWMutex).Unlock", func(fr *frame, args []value) value {
 		s := fr.i.sch
 		o := s.obj(ptr(args))
-		s.yield(nil, "RWMutex.Unlock")
+		s.yield(nil, "RWMutex.Unlock", o)
 		if !o.locked {
 			fr.i.run.violation("fatal", "sync: Unlock of unlocked RWMutex", nil)
 			s.abortPath("")
@@ -629,7 +684,7 @@ func init() {
 	ext("(*sync.RWMutex).RLock", func(fr *frame, args []value) value {
 		s := fr.i.sch
 		o := s.obj(ptr(args))
-		s.yield(func() bool { return !o.locked }, "RWMutex.RLock")
+		s.yield(func() bool { return !o.locked }, "RWMutex.RLock", o)
 		o.readers++
 		s.acquire(o)
 		return nil
@@ -637,7 +692,7 @@ func init() {
 	ext("(*sync.RWMutex).RUnlock", func(fr *frame, args []value) value {
 		s := fr.i.sch
 		o := s.obj(ptr(args))
-		s.yield(nil, "RWMutex.RUnlock")
+		s.yield(nil, "RWMutex.RUnlock", o)
 		if o.readers <= 0 {
 			fr.i.run.violation("fatal", "sync: RUnlock of unlocked RWMutex", nil)
 			s.abortPath("")
@@ -650,7 +705,7 @@ func init() {
 	ext("(*sync.WaitGroup).Add", func(fr *frame, args []value) value {
 		s := fr.i.sch
 		o := s.obj(ptr(args))
-		s.yield(nil, "WaitGroup.Add")
+		s.yield(nil, "WaitGroup.Add", o)
 		o.count += int(asInt64(args[1]))
 		if o.count < 0 {
 			panic(targetPanic{v: "sync: negative WaitGroup counter"})
@@ -661,7 +716,7 @@ func init() {
 	ext("(*sync.WaitGroup).Done", func(fr *frame, args []value) value {
 		s := fr.i.sch
 		o := s.obj(ptr(args))
-		s.yield(nil, "WaitGroup.Done")
+		s.yield(nil, "WaitGroup.Done", o)
 		o.count--
 		if o.count < 0 {
 			panic(targetPanic{v: "sync: negative WaitGroup counter"})
@@ -672,14 +727,14 @@ func init() {
 	ext("(*sync.WaitGroup).Wait", func(fr *frame, args []value) value {
 		s := fr.i.sch
 		o := s.obj(ptr(args))
-		s.yield(func() bool { return o.count == 0 }, "WaitGroup.Wait")
+		s.yield(func() bool { return o.count == 0 }, "WaitGroup.Wait", o)
 		s.acquire(o)
 		return nil
 	})
 	ext("(*sync.Once).Do", func(fr *frame, args []value) value {
 		s := fr.i.sch
 		o := s.obj(ptr(args))
-		s.yield(func() bool { return !o.locked }, "Once.Do")
+		s.yield(func() bool { return !o.locked }, "Once.Do", o)
 		if o.done {
 			s.acquire(o)
 			return nil
@@ -698,7 +753,7 @@ func init() {
 			s := fr.i.sch
 			p := ptr(args)
 			o := s.obj(p)
-			s.yield(nil, "atomic."+name)
+			s.yield(nil, "atomic."+name, o)
 			s.acquire(o)
 			r := f(fr, p, args)
 			s.release(o)
